@@ -38,6 +38,10 @@ def parallelPlates (n : Nat) (pref : Nat → α) (terms : Nat → List (α × α
 /-- element-wise sum of tables (`Impedance::operator+=` over equal lengths) -/
 def addTables (a b : List (Cx α)) : List (Cx α) := List.zipWith Cx.add a b
 
+/-- `Impedance::operator+=` as it is since the fix "operator+= min size": the left table keeps its
+    length, entries beyond the end of the right table stay as they are, a longer right table is cut -/
+def addInto (a b : List (Cx α)) : List (Cx α) := List.zipWith Cx.add a b ++ a.drop b.length
+
 structure FactoryCfg where
   gapNonzero : Bool        -- gap != 0
   gapPositive : Bool       -- gap > 0
